@@ -425,6 +425,90 @@ def prog_g5():
     return PRELUDE + HELPERS + "\n//go:noinline\nfunc get64() [64]int { return [64]int{1: 5, 2: 6} }\n\nfunc main() {\n" + main + "\trunAll(cases)\n}\n"
 
 
+# ---------------------------------------------------------------- G6 storage: variables declared in blocks that run several times, addresses that outlive the block
+# full product type x declaration form x repetition form x use: every round must start from the zero value, every round's variable is a distinct one,
+# and an address stored away (slice, global, map, struct field, closure) must still reach that round's variable after the frame is gone and the stack was overwritten
+G6_TYPES = {
+    "int": dict(decls=["var v int", "v := 0", "v := *new(int)"], mut="v += i + 1", show="v", addr="&v"),
+    "arr": dict(decls=["var v [3]int", "v := [3]int{}", "v := [3]int{1: 0}", "v := *new([3]int)"], mut="v[i%3] += i + 1", show="v[0]*100 + v[1]*10 + v[2]", addr="&v[1]"),
+    "st": dict(decls=["var v st6", "v := st6{}", "v := st6{c: \"\"}", "v := st6{a: 0, b: [2]bool{}}"], mut="v.a += i + 1; v.b[i%2] = true; v.c += \"x\"",
+               show="v.a*100 + b2i(v.b[0])*10 + b2i(v.b[1]) + len(v.c)*1000", addr="&v.a"),
+}
+G6_REPS = {
+    "for3": ("", "for i := 0; i < 3; i++ {\n%s\n}", ""),
+    "rangeint": ("", "for i := range 3 {\n%s\n}", ""),
+    "goto": ("i := 0", "L6:\nif i < 3 {\n%s\ni++\ngoto L6\n}", ""),
+    "continue-outer": ("", "outer6:\nfor i := 0; i < 3; i++ {\nfor j := 0; j < 2; j++ {\n%s\nif j == 0 && i != 1 {\ncontinue outer6\n}\n}\n}", ""),
+    "closure-calls": ("", "blk := func(i int) {\n%s\n}\nblk(0); blk(1); blk(2)", ""),
+    "recursion": ("", "var rec func(i int)\nrec = func(i int) {\nif i == 3 {\nreturn\n}\n%s\nrec(i + 1)\n}\nrec(0)", ""),
+    "range-slice": ("", "for i := range []string{\"a\", \"b\", \"c\"} {\n%s\n}", ""),
+}
+G6_USES = {
+    "plain": ("", "", ""),
+    "addr-local": ("", "p := %(addr)s; *p += 5", ""),
+    "addr-in-slice": ("var saved []*int", "saved = append(saved, %(addr)s)", "ti(\"sm\", smash6(30)); for _, p := range saved { ti(\"s\", *p); *p += 1 }; for _, p := range saved { ti(\"t\", *p) }"),
+    "addr-in-global": ("", "gp6[i] = %(addr)s", "ti(\"sm\", smash6(30)); for k := 0; k < 3; k++ { ti(\"s\", *gp6[k]); *gp6[k] += 1 }; for k := 0; k < 3; k++ { ti(\"t\", *gp6[k]) }"),
+    "addr-in-map": ("mp := map[int]*int{}", "mp[i] = %(addr)s", "ti(\"sm\", smash6(30)); for k := 0; k < 3; k++ { ti(\"s\", *mp[k]); *mp[k] += 1 }; for k := 0; k < 3; k++ { ti(\"t\", *mp[k]) }"),
+    "addr-in-field": ("var hold struct{ ps [3]*int }", "hold.ps[i] = %(addr)s", "ti(\"sm\", smash6(30)); for k := 0; k < 3; k++ { ti(\"s\", *hold.ps[k]); *hold.ps[k] += 1 }; for k := 0; k < 3; k++ { ti(\"t\", *hold.ps[k]) }"),
+    "closure": ("var fs []func() int", "fs = append(fs, func() int { %(mut)s; return %(show)s })", "ti(\"sm\", smash6(30)); for _, f := range fs { ti(\"c\", f()) }; for _, f := range fs { ti(\"d\", f()) }"),
+    "whole-addr": ("var keep []func() int", "q := &v; keep = append(keep, func() int { v := *q; return %(show)s })", "ti(\"sm\", smash6(30)); for _, f := range keep { ti(\"w\", f()) }"),
+}
+G6_SUPPORT = r"""
+type st6 struct {
+	a int
+	b [2]bool
+	c string
+}
+
+var gp6 [3]*int
+
+func b2i(b bool) int {
+	if b {
+		return 1
+	}
+	return 0
+}
+
+//go:noinline
+func smash6(n int) int {
+	var pad [64]int
+	for k := range pad {
+		pad[k] = 7000 + n + k
+	}
+	if n == 0 {
+		return pad[3] & 1
+	}
+	return smash6(n-1) + pad[5]&1
+}
+
+// a callee hands out the address of a part of its own local
+//go:noinline
+func mk6a(i int) *int { var v [3]int; v[1] = i; return &v[1] }
+
+//go:noinline
+func mk6s(i int) *int { v := st6{a: i}; p := &v; return &p.a }
+
+//go:noinline
+func mk6c(i int) func() int { var v [3]int; v[i%3] = i + 1; return func() int { v[0]++; return v[0]*100 + v[1]*10 + v[2] } }
+"""
+
+
+def prog_g6():
+    main = ""
+    n = 0
+    for tn, T in G6_TYPES.items():
+        for di, decl in enumerate(T["decls"]):
+            for rn, (rpre, rtmpl, rpost) in G6_REPS.items():
+                for un, (upre, ubody, upost) in G6_USES.items():
+                    d = dict(addr=T["addr"], mut=T["mut"], show=T["show"])
+                    inner = "%s\nti(\"z\", %s)\n%s\n%s\nti(\"m\", %s)" % (decl, T["show"], T["mut"], ubody % d, T["show"])
+                    body = "\n".join(x for x in (upre, rpre, rtmpl % inner, upost % d) if x)
+                    main += "\tdrive(\"storage/%s%d/%s/%s\", func(x int) int {\n%s\n\t\treturn 0\n\t})\n" % (tn, di, rn, un, "\n".join("\t\t" + ln for ln in body.split("\n")))
+                    n += 1
+    main += "\tdrive(\"storage/callee-part-addr\", func(x int) int {\n\t\ta, b, c := mk6a(3), mk6s(4), mk6a(5)\n\t\tf, g := mk6c(1), mk6c(2)\n\t\tti(\"sm\", smash6(30))\n\t\tti(\"a\", *a); ti(\"b\", *b); ti(\"c\", *c); *a += 10\n\t\tti(\"f\", f()); ti(\"g\", g()); ti(\"f\", f()); ti(\"a\", *a); ti(\"c\", *c)\n\t\treturn 0\n\t})\n"
+    return PRELUDE + HELPERS + G6_SUPPORT + "\nfunc main() {\n" + main + "\trunAll(cases)\n}\n"
+
+
 def programs(tier):
     ps = dict(prog_g1(tier))
     ps["calls_single"] = prog_g2(False)
@@ -433,6 +517,7 @@ def programs(tier):
     ps["nest_single"] = prog_g4(False)
     ps["nest_split"] = prog_g4(True)
     ps["rangemut"] = prog_g5()
+    ps["storage"] = prog_g6()
     return ps
 
 
